@@ -161,6 +161,8 @@ type Mod struct {
 	// AugmentsReversed: the augments are written last-first (an augment whose target another augment of the module
 	// adds then stands before that one)
 	AugmentsReversed bool `json:"augments_reversed,omitempty"`
+	// AugmentsOrder, when it is a permutation of the indices of Augments, is the order in which they are written
+	AugmentsOrder []int `json:"augments_order,omitempty"`
 }
 
 // ---- rendering -----------------------------------------------------------------
@@ -501,7 +503,9 @@ func (m *Mod) Text() string {
 		x.node(1, n)
 	}
 	for i := range m.Augments {
-		if m.AugmentsReversed {
+		if len(m.AugmentsOrder) == len(m.Augments) {
+			x.augment(1, m.Augments[m.AugmentsOrder[i]])
+		} else if m.AugmentsReversed {
 			x.augment(1, m.Augments[len(m.Augments)-1-i])
 		} else {
 			x.augment(1, m.Augments[i])
